@@ -628,7 +628,23 @@ impl World {
                 let got = match got {
                     Ok(g) => g,
                     Err(p) => {
-                        discs.push(Disc { props: vec!["C01", "C02", "C17"], sig: format!("panic-in-{}", kind), detail: format!("{:?}: panic {}", short_op(op), p) });
+                        // a call that neither returns nor errs: C01; plus the properties that promise the operation works
+                        let f = op_features(op);
+                        let mut props = vec!["C01", "C02"];
+                        if f.inst {
+                            props.push("C11");
+                        }
+                        if f.admin {
+                            props.extend(["C12", "C11"]);
+                        }
+                        if f.funds || f.bank {
+                            props.extend(["C05", "C09"]);
+                        }
+                        if f.attrs {
+                            props.push("C13");
+                        }
+                        props.dedup();
+                        discs.push(Disc { props, sig: format!("panic-in-{}", kind), detail: format!("{:?}: panic {}", short_op(op), p) });
                         return (discs, None);
                     }
                 };
